@@ -187,26 +187,50 @@ def Chain (b : Base) (s : St) : List Act → List Cell → Nat → List (Option 
       (if b.main = true then addr = [] else addr = some (b.cur, b.pc + 1) :: b.addr)
   | a :: rest, D, S, addr => ∃ r tail, addr = some (a.f, r) :: tail ∧ 0 ≤ r ∧
       Bal.Inv a.ann a.D a.S a.A ⟨r.toNat, .val :: D, S, a.A⟩ ∧ a.A = tail.length ∧ ActOK s a ∧
-      Chain b s rest a.D a.S tail
+      a.D.length ≤ D.length ∧ Chain b s rest a.D a.S tail
 
 theorem Chain.ext {b : Base} {s s' : St} (he : TExt s s') :
     ∀ (acts : List Act) (D : List Cell) (S : Nat) (addr : List (Option (Nat × Int))),
       Chain b s acts D S addr → Chain b s' acts D S addr
   | [], _, _, _, h => h
   | a :: rest, D, S, addr, h => by
-    obtain ⟨r, tail, h1, h2, h3, h4, h5, h6⟩ := h
-    exact ⟨r, tail, h1, h2, h3, h4, h5.ext he, Chain.ext he rest _ _ _ h6⟩
+    obtain ⟨r, tail, h1, h2, h3, h4, h5, h7, h6⟩ := h
+    exact ⟨r, tail, h1, h2, h3, h4, h5.ext he, h7, Chain.ext he rest _ _ _ h6⟩
 
 /-- the scope depth the bottom activation was entered with is the smallest of the chain -/
 theorem Chain.depth {b : Base} {s : St} : ∀ (acts : List Act) (D : List Cell) (S : Nat) (addr : List (Option (Nat × Int))),
     Chain b s acts D S addr → b.linear.length ≤ S
   | [], _, _, _, h => by rw [h.2.1]; exact Nat.le_refl _
   | a :: rest, D, S, addr, h => by
-    obtain ⟨r, tail, _, _, h3, _, _, h6⟩ := h
+    obtain ⟨r, tail, _, _, h3, _, _, _, h6⟩ := h
     have := Chain.depth rest _ _ _ h6
     obtain ⟨t, own, _, _, _, hsc, _⟩ := h3
     simp only at hsc
     omega
+
+/-- the data the bottom activation was entered on is the shallowest of the chain -/
+theorem Chain.dlen {b : Base} {s : St} : ∀ (acts : List Act) (D : List Cell) (S : Nat) (addr : List (Option (Nat × Int))),
+    Chain b s acts D S addr → b.data.length ≤ D.length
+  | [], _, _, _, h => by rw [h.1]; simp
+  | a :: rest, D, S, addr, h => by
+    obtain ⟨r, tail, _, _, _, _, _, h7, h6⟩ := h
+    have := Chain.dlen rest _ _ _ h6
+    omega
+
+/-- the return addresses below the bottom activation are at the bottom of the address stack -/
+theorem Chain.addr_suffix {b : Base} {s : St} : ∀ (acts : List Act) (D : List Cell) (S : Nat) (addr : List (Option (Nat × Int))),
+    Chain b s acts D S addr → b.main = false → b.addr <:+ addr ∧ b.addr.length + 1 ≤ addr.length
+  | [], _, _, _, h, hm => by
+    have h3 := h.2.2
+    rw [hm] at h3
+    simp only [Bool.false_eq_true, if_false] at h3
+    rw [h3]
+    exact ⟨List.suffix_cons _ _, by simp⟩
+  | a :: rest, D, S, addr, h, hm => by
+    obtain ⟨r, tail, h1, _, _, _, _, _, h6⟩ := h
+    obtain ⟨i1, i2⟩ := Chain.addr_suffix rest _ _ _ h6 hm
+    rw [h1]
+    exact ⟨i1.trans (List.suffix_cons _ _), by simp; omega⟩
 
 /-- the loop is inside an activation -/
 structure Running (b : Base) (s : St) (top : Act) (rest : List Act) : Prop where
